@@ -43,10 +43,12 @@ class SubProcess(zope.testrunner.feature.Feature):
         print(self.runner.ran,
               len(self.runner.failures), len(self.runner.errors),
               file=self.original_stderr)
+        # One line per test: the parent splits the report at every line
+        # break it knows (\n, \r, \r\n), so none may remain in a name.
         for test, exc_info in self.runner.failures:
-            print(' '.join(str(test).strip().split('\n')),
+            print(' '.join(str(test).strip().splitlines()),
                   file=self.original_stderr)
         for test, exc_info in self.runner.errors:
-            print(' '.join(str(test).strip().split('\n')),
+            print(' '.join(str(test).strip().splitlines()),
                   file=self.original_stderr)
         self.original_stderr.flush()
